@@ -13,8 +13,9 @@ MANIFEST = {
             "the blocks of any size tile it (get_body_eq_listing, block_get_reassembles). M is tied to the compiled code by "
             "differential runs I vs M vs S: every (offset, buflen) pair up to listing length + 2 on generated tables/filters with "
             "exact-size heap objects under ASan/UBSan, plus a real block-wise GET through coap_dispatch() for every SZX. "
-            "Three defects found by the check were fixed in libcoap (82aaa05, 5e40d26, aa61e0b); one is open (wkc-query-escaped: the GET "
-            "path compares the percent-encoded query), with a decide-proved witness and get_reassembles_partial.",
+            "get_reassembles: a GET with any Uri-Query options and any block size yields the listing for the first option. "
+            "Four defects found by the check were fixed in libcoap (match() prefix overread / cross-token match, read behind an "
+            "empty pattern, quote stripping with SIZE_MAX length, GET path filtering on the percent-encoded query); none is open.",
     "note": "Trusted: Lean kernel (+ propext, Classical.choice, Quot.sound), harness/generator/judge, the hand transcription M "
             "(checked against the compiled code on the cases run only), uthash's insertion-order iteration. Hypothesis of the "
             "theorems: buflen <= COAP_PRINT_STATUS_MAX. Block slicing itself belongs to the block-wise layer (C09).",
@@ -24,7 +25,7 @@ LEAN_MODULES = ["CoapVerif.Props.C20"]
 NAMESPACE = "Coap.C20"
 REQUIRED_THEOREMS = ["window_exact", "total_exact", "trunc_flag_iff", "listing_exactly_registered", "match_eq_spec",
                      "match_no_overread", "block_get_reassembles", "wellknown_eq", "filter_eq_spec", "get_body_eq_listing",
-                     "get_reassembles_partial", "get_query_escaped_witness"]
+                     "get_reassembles", "get_query_with_space_listed"]
 RULE = ("resource tables built by 0..12 coap_add_resource/coap_delete_resource calls (paths from a small pool so that "
         "re-registration happens, 0..4 attributes with/without value, quoted/unquoted/empty/one-byte/malformed-quote values, "
         "observable / OSCORE-only markers, library-copied or caller-owned exact-size strings) x filters (none, NULL, href/rt/if/rel/"
@@ -42,8 +43,8 @@ TRUSTED_BASE = ["Lean 4.33 kernel; axioms allowed: propext, Classical.choice, Qu
                 "exercised by the generator, not proved)"]
 ASSUMPTIONS = ["buflen <= COAP_PRINT_STATUS_MAX (0x0FFFFFFF) and offset + buflen < 2^64 (no wrap of the status word / size_t)",
                "a non-NULL attribute value has a non-NULL `s`; strings are byte strings of their stated length",
-               "coap_print_wellknown(): the query is taken as the decoded search string; on the GET path coap_get_query() is modelled "
-               "(one Uri-Query option) and its percent-escaping is the open finding wkc-query-escaped",
+               "coap_print_wellknown(): the query is taken as the decoded search string; on the GET path the filter is the first "
+               "Uri-Query option's bytes (SPEC DECISION D20.8)",
                "block slicing of the body is the block-wise layer's (C09): C20 proves the tiling lemma, proves the body the handler "
                "hands over, and observes the reassembled GET for every SZX",
                "compiled Lean definitions agree with the kernel's reading of them"]
@@ -53,7 +54,8 @@ SPEC_DECISIONS = ["D20.1 attributes are listed in table order (most recently add
                   "D20.4 a stored value of length >= 2 that begins and ends with '\"' is matched without the quotes, any other as it is",
                   "D20.5 rt/if/rel are split at every SP (no token for the empty value, none after a final SP); others matched whole",
                   "D20.6 with a repeated attribute name the filter looks at the first one the table holds",
-                  "D20.7 a resource registered as .well-known/core is not listed"]
+                  "D20.7 a resource registered as .well-known/core is not listed",
+                  "D20.8 GET with several Uri-Query options: the first one is the search criterion, the others do not restrict the listing"]
 
 
 def harness(ctx):
@@ -277,12 +279,19 @@ def generate(ctx, escalate=False):
         nwin += len(ws)
         out += pack(t, f, ws)
         out.append("body %s %s" % (t, f))
-        # a real block-wise GET through coap_dispatch(): every Block2 size
+        # a real block-wise GET through coap_dispatch(): every Block2 size; the filter travels as Uri-Query option(s)
         # (not when the application itself registered .well-known/core: then the request is the application's)
         if (f in ("N", "-") or len(f) <= 2 * 255) and WK_HEX not in t:
             if rng.random() < (1.0 if thorough else 0.5):
+                qs = f
+                if f not in ("N", "-"):
+                    c = rng.random()
+                    if c < 0.12:
+                        qs = f + "+" + rng.choice(["78", "-", "72743d61", "63743d3430", f])          # further options: ignored (D20.8)
+                    elif c < 0.18:
+                        qs = rng.choice(["-", "783d", "72743d2a"]) + "+" + f                        # another first option
                 for szx in range(7):
-                    out.append("get %s %s %d" % (t, f, szx))
+                    out.append("get %s %s %d" % (t, qs, szx))
     ctx.cov["exhaustive"] = {"table_filter_pairs_with_all_windows": nfull, "pairs_with_edge_rows_columns_and_sample": nsampled,
                              "full_window_limit": full_limit, "printer_calls": nwin, "tables": ntables}
     out += match_lines(rng, 6000, thorough)
@@ -398,11 +407,4 @@ UNESCAPED = set(b"ABCDEFGHIJKLMNOPQRSTUVWXYZabcdefghijklmnopqrstuvwxyz0123456789
 
 
 def known(ctx, c):
-    """open finding wkc-query-escaped: a GET whose Uri-Query value contains a byte that coap_get_query() percent-escapes,
-    and the implementation answers exactly what the model of that escaping predicts (any other deviation is reported)"""
-    p = c["input"].split()
-    if p[0] == "get" and p[2] not in ("N", "-"):
-        q = bytes.fromhex(p[2])
-        if any(b not in UNESCAPED for b in q) and c["impl"] == c["model"] and c["impl"] != c["spec"]:
-            return "wkc-query-escaped"
     return None
